@@ -225,7 +225,7 @@ def _path(tmp, opts):
     "C30",
     "roundtrip",
     single_case,
-    quick=240,
+    quick=168,
     thorough=6000,
     tol="exact (bytes, fields; 1e-12 on derived base-axis floats)",
     rule=">=1 ensemble axis with non-default fields/values, or nested metadata",
@@ -253,7 +253,7 @@ def check_roundtrip(case, ctx):
     "C30",
     "list_roundtrip",
     list_case,
-    quick=120,
+    quick=84,
     thorough=3000,
     tol="exact (bytes, fields; 1e-12 on derived base-axis floats)",
     rule=">=1 member has an ensemble axis with non-default fields/values or nested metadata",
@@ -289,7 +289,7 @@ def check_list_roundtrip(case, ctx):
     "C30",
     "many_axes",
     many_axes_case,
-    quick=60,
+    quick=42,
     thorough=1500,
     tol="exact (bytes, fields; 1e-12 on derived base-axis floats)",
     rule=">=11 ensemble axes of which two differ",
